@@ -65,3 +65,98 @@ CORE_SELECTOR_QUERIES = [
     ([["desc", [["wild"]]]], "arr"),
     ([["child", [["name", "a"]]], ["child", [["slice", None, None, -1]]]], "nest1"),
 ]
+
+
+# ------------------------------------------------------------------ filter expressions
+def rel(*names):
+    return ["rel", [["child", [["name", n] if isinstance(n, str) else ["index", n]]] for n in names]]
+
+
+def abs_(*names):
+    return ["abs", [["child", [["name", n] if isinstance(n, str) else ["index", n]]] for n in names]]
+
+
+A = ["test", rel("a")]
+B = ["test", rel("b")]
+C = ["cmp", "==", rel("a"), ["lit", 1]]
+ATOMS = [A, B, C]
+CMP_OPS = ["==", "!=", "<", "<=", ">", ">="]
+LITERALS = [1, 0, "a", "", True, False, None, 1.5, -1]
+
+
+def logical_trees(depth: int) -> List[list]:
+    cur = list(ATOMS)
+    for _ in range(depth):
+        nxt = list(cur)
+        nxt.extend(["not", t] for t in cur)
+        for a in cur:
+            for b in cur:
+                nxt.append(["and", a, b])
+                nxt.append(["or", a, b])
+        cur = nxt
+    return cur
+
+
+def sample_logical(rng: random.Random, k: int, depth: int = 3) -> List[list]:
+    """Random trees of exactly the given maximum depth over ! && || and the three atoms,
+    some with redundant parentheses."""
+
+    def gen(d: int) -> list:
+        if d == 0 or rng.random() < 0.2:
+            return rng.choice(ATOMS)
+        r = rng.random()
+        if r < 0.25:
+            t = ["not", gen(d - 1)]
+        elif r < 0.6:
+            t = ["and", gen(d - 1), gen(d - 1)]
+        else:
+            t = ["or", gen(d - 1), gen(d - 1)]
+        if rng.random() < 0.15:
+            t = ["paren", t]
+        return t
+
+    out, seen = [], set()
+    guard = 0
+    while len(out) < k and guard < k * 50:
+        guard += 1
+        t = gen(depth)
+        key = repr(t)
+        if key not in seen and t[0] not in ("test", "cmp"):
+            seen.add(key)
+            out.append(t)
+    return out
+
+
+def fq(expr: list, prefix: List[list] = ()) -> list:
+    """A query whose last segment is a filter with the given expression."""
+    return list(prefix) + [["child", [["filter", expr]]]]
+
+
+CORE_LOGICAL = [
+    ["not", A], ["and", A, B], ["or", A, B], ["not", ["and", A, B]], ["not", ["or", A, C]],
+    ["or", A, ["and", B, C]], ["and", ["or", A, B], C], ["and", A, ["or", B, C]], ["or", ["and", A, B], C],
+    ["not", ["not", A]], ["and", ["not", A], B], ["not", C], ["or", ["not", C], ["and", A, ["not", B]]],
+    ["paren", ["or", A, B]], ["and", ["paren", ["or", A, B]], ["paren", C]],
+    ["or", ["or", A, B], C], ["or", A, ["or", B, C]], ["and", ["and", A, B], C], ["and", A, ["and", B, C]],
+]
+
+FUNCTION_EXPRS = [
+    ["cmp", "==", ["fn", "length", [rel("a")]], ["lit", 2]],
+    ["cmp", ">=", ["fn", "length", [rel()]], ["lit", 1]],
+    ["cmp", "==", ["fn", "length", [rel("a")]], ["fn", "length", [rel("b")]]],
+    ["cmp", "==", ["fn", "count", [["rel", [["child", [["wild"]]]]]]], ["lit", 1]],
+    ["cmp", ">", ["fn", "count", [["rel", [["desc", [["name", "a"]]]]]]], ["lit", 1]],
+    ["cmp", "==", ["fn", "value", [["rel", [["child", [["wild"]]]]]]], ["lit", 1]],
+    ["cmp", "==", ["fn", "value", [["rel", [["desc", [["name", "a"]]]]]]], rel("a")],
+    ["cmp", "!=", ["fn", "value", [["rel", [["child", [["wild"]]]]]]], ["fn", "length", [rel("a")]]],
+    ["cmp", "<", ["fn", "count", [["abs", [["child", [["wild"]]]]]]], ["fn", "length", [rel("a")]]],
+]
+
+REGEX_EXPRS = [
+    ["fn", "match", [rel("a"), ["lit", "a.*"]]],
+    ["fn", "search", [rel("a"), ["lit", "b"]]],
+    ["fn", "match", [rel("a"), ["lit", "[ab]"]]],
+    ["not", ["fn", "search", [rel("a"), ["lit", "^a"]]]],
+    ["fn", "match", [rel("a"), rel("b")]],
+    ["and", ["fn", "search", [rel("a"), ["lit", "a|1"]]], A],
+]
